@@ -1,1 +1,657 @@
-//! C20 harnesses (not written yet).
+//! C20 — all operator forms agree and borrowed operands are never modified.
+//!
+//! Differential oracle: no model of the operators is needed (C01..C05 decide *what* they
+//! compute). Each harness evaluates several syntactic forms of one operator on *identical*
+//! operand states and requires identical raw results `(len, every storage bit)`; operands
+//! that were only borrowed, and a clone taken before an in-place operation, must still have
+//! their pre-state raw storage afterwards.
+//!
+//! Identical operand copies are rebuilt from the raw pre-state (`dup` closures) instead of
+//! `clone()`d: rebuilding is a concrete-size allocation, and it keeps `clone()` itself out
+//! of the trusted base (the explicit clone checks use the real `clone()`).
+use crate::big::Big;
+use crate::nd;
+use crate::scopes::*;
+use bva::{Bit, BitVector, Bv, Bvd, Bvf};
+
+// ---- rebuilding an operand from its raw pre-state ---------------------------------------------
+#[inline(always)]
+fn d1(r: &RawV) -> Bvd {
+    Bvd::new(Box::new([r.v.limb(0)]) as Box<[u64]>, r.len)
+}
+#[inline(always)]
+fn d2(r: &RawV) -> Bvd {
+    Bvd::new(Box::new([r.v.limb(0), r.v.limb(1)]) as Box<[u64]>, r.len)
+}
+#[inline(always)]
+fn d3(r: &RawV) -> Bvd {
+    Bvd::new(Box::new([r.v.limb(0), r.v.limb(1), r.v.limb(2)]) as Box<[u64]>, r.len)
+}
+#[inline(always)]
+fn afix(r: &RawV) -> Bv {
+    Bv::Fixed(Bvf::new([r.v.limb(0), r.v.limb(1)], r.len))
+}
+#[inline(always)]
+fn adyn1(r: &RawV) -> Bv {
+    Bv::Dynamic(d1(r))
+}
+#[inline(always)]
+fn adyn2(r: &RawV) -> Bv {
+    Bv::Dynamic(d2(r))
+}
+#[inline(always)]
+fn adyn3(r: &RawV) -> Bv {
+    Bv::Dynamic(d3(r))
+}
+
+#[inline(always)]
+fn df8x1(r: &RawV) -> Bvf<u8, 1> {
+    Bvf::new([r.v.lo as u8], r.len)
+}
+#[inline(always)]
+fn df8x2(r: &RawV) -> Bvf<u8, 2> {
+    Bvf::new([r.v.lo as u8, (r.v.lo >> 8) as u8], r.len)
+}
+#[inline(always)]
+fn df8x3(r: &RawV) -> Bvf<u8, 3> {
+    Bvf::new([r.v.lo as u8, (r.v.lo >> 8) as u8, (r.v.lo >> 16) as u8], r.len)
+}
+#[inline(always)]
+fn df16x2(r: &RawV) -> Bvf<u16, 2> {
+    Bvf::new([r.v.lo as u16, (r.v.lo >> 16) as u16], r.len)
+}
+#[inline(always)]
+fn df64x2(r: &RawV) -> Bvf<u64, 2> {
+    Bvf::new([r.v.limb(0), r.v.limb(1)], r.len)
+}
+#[inline(always)]
+fn du8(r: &RawV) -> u8 {
+    r.v.lo as u8
+}
+#[inline(always)]
+fn du16(r: &RawV) -> u16 {
+    r.v.lo as u16
+}
+#[inline(always)]
+fn du32(r: &RawV) -> u32 {
+    r.v.lo as u32
+}
+#[inline(always)]
+fn du64(r: &RawV) -> u64 {
+    r.v.lo as u64
+}
+#[inline(always)]
+fn du128(r: &RawV) -> u128 {
+    r.v.lo
+}
+#[inline(always)]
+fn dusize(r: &RawV) -> usize {
+    r.v.lo as usize
+}
+
+/// Same length and same bits (the capacity of a freshly allocated result may differ).
+#[inline(always)]
+fn same(x: &RawV, y: &RawV) -> bool {
+    x.len == y.len && x.v == y.v
+}
+
+// ---- vectors built from a native integer ---------------------------------------------------------
+#[inline(always)]
+fn v_f8(x: u8) -> Bvf<u8, 1> {
+    Bvf::<u8, 1>::try_from(x).unwrap()
+}
+#[inline(always)]
+fn v_f16(x: u16) -> Bvf<u16, 1> {
+    Bvf::<u16, 1>::try_from(x).unwrap()
+}
+#[inline(always)]
+fn v_f32(x: u32) -> Bvf<u32, 1> {
+    Bvf::<u32, 1>::try_from(x).unwrap()
+}
+#[inline(always)]
+fn v_f64(x: u64) -> Bvf<u64, 1> {
+    Bvf::<u64, 1>::try_from(x).unwrap()
+}
+#[inline(always)]
+fn v_f128(x: u128) -> Bvf<u64, 2> {
+    Bvf::<u64, 2>::try_from(x).unwrap()
+}
+#[inline(always)]
+fn v_d64(x: u64) -> Bvd {
+    Bvd::from(x)
+}
+#[inline(always)]
+fn v_d32(x: u32) -> Bvd {
+    Bvd::from(x)
+}
+#[inline(always)]
+fn v_a16(x: u16) -> Bv {
+    Bv::from(x)
+}
+#[inline(always)]
+fn v_a64(x: u64) -> Bv {
+    Bv::from(x)
+}
+
+// ---- pre-conditions -------------------------------------------------------------------------------
+#[inline(always)]
+fn any(_ra: &RawV, _rb: &RawV) -> bool {
+    true
+}
+/// Division / remainder: a zero divisor makes every form panic (decided by the `zero`
+/// must-panic harnesses below and by C02).
+#[inline(always)]
+fn nz(_ra: &RawV, rb: &RawV) -> bool {
+    !rb.v.is_zero()
+}
+
+// ---- vacuity witnesses ----------------------------------------------------------------------------
+/// Symbolic lengths on both sides.
+macro_rules! w_sym {
+    ($ra:ident, $rb:ident) => {
+        w!($rb.len > $ra.len && !$rb.v.fits($ra.len), "rhs longer than lhs with a set bit at index >= len(lhs)");
+        w!($ra.len > 0 && $ra.v == Big::mask($ra.len) && !$rb.v.is_zero(), "lhs all ones and rhs non-zero (carries)");
+        w!($ra.len == 0 || $rb.len == 0, "an empty operand");
+    };
+}
+/// Any scope (concrete lengths included).
+macro_rules! w_val {
+    ($ra:ident, $rb:ident) => {
+        w!(!$ra.v.is_zero() && !$rb.v.is_zero(), "both operands non-zero");
+        w!($rb.v.cmp($ra.v) == std::cmp::Ordering::Greater, "rhs larger in value than lhs");
+        w!($ra.len == 0 || ($ra.v == Big::mask($ra.len) && !$rb.v.is_zero()), "lhs all ones and rhs non-zero (or lhs empty)");
+    };
+}
+/// Shift amounts (rhs is the native shift amount).
+macro_rules! w_sh {
+    ($ra:ident, $rb:ident) => {
+        w!($ra.len > 8 && !$rb.v.is_zero() && $rb.v.lo % 8 == 0 && $rb.v.lo < $ra.len as u128 && $ra.v.bit(0), "byte-aligned shift smaller than len, bit 0 set");
+        w!($ra.len > 1 && $rb.v.lo % 8 != 0 && $rb.v.lo < $ra.len as u128 && $ra.v.bit($ra.len - 1), "unaligned shift smaller than len, top bit set");
+        w!($ra.len > 0 && $rb.v.lo >= $ra.len as u128, "shift amount >= len");
+        w!($ra.len > 0 && $rb.v.is_zero(), "shift by zero");
+    };
+}
+/// Shift amounts when the length is concrete (possibly tiny).
+macro_rules! w_shc {
+    ($ra:ident, $rb:ident) => {
+        w!($ra.len < 2 || (!$rb.v.is_zero() && $rb.v.lo < $ra.len as u128 && $ra.v.bit(0) && $ra.v.bit($ra.len - 1)), "shift in 1..len with both end bits set (or len < 2)");
+        w!($rb.v.lo >= $ra.len as u128, "shift amount >= len");
+        w!($rb.v.is_zero(), "shift by zero");
+    };
+}
+
+/// All six forms in one harness. `$da` / `$db` rebuild a copy of the operand from its raw
+/// pre-state; `$pre` restricts the operand pair; `$wit` is the witness set.
+macro_rules! h_six {
+    ($name:ident, $unw:literal, $a:expr, $da:expr, $b:expr, $db:expr, $op:tt, $opa:tt, $pre:expr, $wit:ident) => {
+        harness!($name, $unw, {
+            let (a0, ra) = $a;
+            let (b0, rb) = $b;
+            let da = $da;
+            let db = $db;
+            nd::assume($pre(&ra, &rb));
+            $wit!(ra, rb);
+            let r_rr = ((&a0) $op (&b0)).into_raw();
+            let r_oo = (da(&ra) $op db(&rb)).into_raw();
+            let r_or = (da(&ra) $op (&b0)).into_raw();
+            let r_ro = ((&a0) $op db(&rb)).into_raw();
+            let mut x = da(&ra);
+            x $opa db(&rb);
+            let r_ao = x.into_raw();
+            let mut y = da(&ra);
+            let keep = y.clone();
+            y $opa (&b0);
+            let r_ar = y.into_raw();
+            assert!(same(&r_oo, &r_rr), "C20: `a op b` differs from `&a op &b`");
+            assert!(same(&r_or, &r_rr), "C20: `a op &b` differs from `&a op &b`");
+            assert!(same(&r_ro, &r_rr), "C20: `&a op b` differs from `&a op &b`");
+            assert!(same(&r_ao, &r_rr), "C20: `a op= b` differs from `&a op &b`");
+            assert!(same(&r_ar, &r_rr), "C20: `a op= &b` differs from `&a op &b`");
+            assert!(r_rr.len == ra.len, "C20: result length differs from the lhs length");
+            assert!(keep.into_raw() == ra, "C20: a clone taken before `a op= &b` changed");
+            assert!(a0.into_raw() == ra, "C20: borrowed lhs modified");
+            assert!(b0.into_raw() == rb, "C20: borrowed rhs modified");
+        });
+    };
+}
+
+/// Native integer rhs `x`: the six forms, and `x` directly versus a vector built from `x`.
+macro_rules! h_six_int {
+    ($name:ident, $unw:literal, $a:expr, $da:expr, $b:expr, $db:expr, $mkv:expr, $op:tt, $opa:tt, $pre:expr, $wit:ident) => {
+        harness!($name, $unw, {
+            let (a0, ra) = $a;
+            let (b0, rb) = $b;
+            let da = $da;
+            let db = $db;
+            nd::assume($pre(&ra, &rb));
+            $wit!(ra, rb);
+            let r_rr = ((&a0) $op (&b0)).into_raw();
+            let r_oo = (da(&ra) $op db(&rb)).into_raw();
+            let r_or = (da(&ra) $op (&b0)).into_raw();
+            let r_ro = ((&a0) $op db(&rb)).into_raw();
+            let mut x = da(&ra);
+            x $opa db(&rb);
+            let r_ao = x.into_raw();
+            let mut y = da(&ra);
+            y $opa (&b0);
+            let r_ar = y.into_raw();
+            let vb = $mkv(b0);
+            let r_v = ((&a0) $op (&vb)).into_raw();
+            let mut z = da(&ra);
+            z $opa (&vb);
+            let r_va = z.into_raw();
+            assert!(same(&r_oo, &r_rr), "C20: `a op x` differs from `&a op &x`");
+            assert!(same(&r_or, &r_rr), "C20: `a op &x` differs from `&a op &x`");
+            assert!(same(&r_ro, &r_rr), "C20: `&a op x` differs from `&a op &x`");
+            assert!(same(&r_ao, &r_rr), "C20: `a op= x` differs from `&a op &x`");
+            assert!(same(&r_ar, &r_rr), "C20: `a op= &x` differs from `&a op &x`");
+            assert!(same(&r_v, &r_rr), "C20: `&a op &vector(x)` differs from `&a op &x`");
+            assert!(same(&r_va, &r_rr), "C20: `a op= &vector(x)` differs from `&a op &x`");
+            assert!(r_rr.len == ra.len, "C20: result length differs from the lhs length");
+            assert!(a0.into_raw() == ra, "C20: borrowed lhs modified");
+            assert!(b0 == db(&rb), "C20: borrowed integer modified");
+            assert!(vb.into_raw().v == rb.v, "C20: borrowed vector built from x modified");
+        });
+    };
+}
+
+/// Two forms per harness (heap operands: every further form multiplies the cost): one form
+/// against the reference `&a op &b`.
+macro_rules! h_pair {
+    ($name:ident, $unw:literal, $form:ident, $a:expr, $da:expr, $b:expr, $db:expr, $op:tt, $opa:tt, $pre:expr, $wit:ident) => {
+        harness!($name, $unw, {
+            let (a0, ra) = $a;
+            let (b0, rb) = $b;
+            let da = $da;
+            let db = $db;
+            nd::assume($pre(&ra, &rb));
+            $wit!(ra, rb);
+            let got = pair_form!($form, da, db, ra, rb, b0, $op, $opa);
+            let want = ((&a0) $op (&b0)).into_raw();
+            assert!(same(&got, &want), "C20: this form differs from `&a op &b`");
+            assert!(a0.into_raw() == ra, "C20: borrowed lhs modified");
+            assert!(b0.into_raw() == rb, "C20: borrowed rhs modified");
+        });
+    };
+}
+macro_rules! pair_form {
+    (oo, $da:ident, $db:ident, $ra:ident, $rb:ident, $b0:ident, $op:tt, $opa:tt) => {
+        ($da(&$ra) $op $db(&$rb)).into_raw()
+    };
+    (or, $da:ident, $db:ident, $ra:ident, $rb:ident, $b0:ident, $op:tt, $opa:tt) => {
+        ($da(&$ra) $op (&$b0)).into_raw()
+    };
+    (ro, $da:ident, $db:ident, $ra:ident, $rb:ident, $b0:ident, $op:tt, $opa:tt) => {{
+        let a1 = $da(&$ra);
+        let r = ((&a1) $op $db(&$rb)).into_raw();
+        assert!(a1.into_raw() == $ra, "C20: borrowed lhs of `&a op b` modified");
+        r
+    }};
+    (ao, $da:ident, $db:ident, $ra:ident, $rb:ident, $b0:ident, $op:tt, $opa:tt) => {{
+        let mut x = $da(&$ra);
+        x $opa $db(&$rb);
+        x.into_raw()
+    }};
+    (ar, $da:ident, $db:ident, $ra:ident, $rb:ident, $b0:ident, $op:tt, $opa:tt) => {{
+        let mut x = $da(&$ra);
+        let keep = x.clone();
+        x $opa (&$b0);
+        assert!(keep.into_raw() == $ra, "C20: a clone taken before `a op= &b` changed");
+        x.into_raw()
+    }};
+}
+
+/// `!a` versus `!&a` (the latter is a separate implementation for `Bvd`).
+macro_rules! h_not {
+    ($name:ident, $unw:literal, $a:expr, $da:expr) => {
+        harness!($name, $unw, {
+            let (a0, ra) = $a;
+            let da = $da;
+            w!(ra.len == 0 || ra.v.bit(ra.len - 1), "top bit set (or empty)");
+            w!(ra.len == 0 || !ra.v.bit(ra.len - 1), "top bit clear (or empty)");
+            let r_r = (!&a0).into_raw();
+            let r_o = (!da(&ra)).into_raw();
+            assert!(same(&r_o, &r_r), "C20: `!a` differs from `!&a`");
+            assert!(a0.into_raw() == ra, "C20: operand of `!&a` modified");
+        });
+    };
+}
+
+/// Division / remainder by zero: whatever the form, the call must panic. The divisor is a
+/// zero vector of symbolic length with *concrete* zero storage (constant propagation then
+/// prunes the division algorithm behind the zero test).
+macro_rules! h_zero {
+    ($name:ident, $unw:literal, $a:expr, $da:expr, $blen:expr, $bcap:literal, $db:expr) => {
+        harness_mp!($name, $unw, {
+            let (a0, ra) = $a;
+            let da = $da;
+            let db = $db;
+            let rb = RawV { len: $blen, v: Big::ZERO, cap: $bcap };
+            let b0 = db(&rb);
+            let f = nd::upto(11);
+            if f == 0 {
+                let _ = (&a0) / (&b0);
+            } else if f == 1 {
+                let _ = da(&ra) / db(&rb);
+            } else if f == 2 {
+                let _ = da(&ra) / (&b0);
+            } else if f == 3 {
+                let _ = (&a0) / db(&rb);
+            } else if f == 4 {
+                let mut x = da(&ra);
+                x /= db(&rb);
+            } else if f == 5 {
+                let mut x = da(&ra);
+                x /= &b0;
+            } else if f == 6 {
+                let _ = (&a0) % (&b0);
+            } else if f == 7 {
+                let _ = da(&ra) % db(&rb);
+            } else if f == 8 {
+                let _ = da(&ra) % (&b0);
+            } else if f == 9 {
+                let _ = (&a0) % db(&rb);
+            } else if f == 10 {
+                let mut x = da(&ra);
+                x %= db(&rb);
+            } else {
+                let mut x = da(&ra);
+                x %= &b0;
+            }
+            never!("NEVER:a form of / or % returned for a zero divisor");
+        });
+    };
+}
+
+// ==== Bvf x Bvf (different word counts) ======================================================
+h_six!(c20_q_add_f8x2_f8x3, 5, f8x2(anylen(16)), df8x2, f8x3(anylen(24)), df8x3, +, +=, any, w_sym);
+h_six!(c20_q_sub_f8x2_f8x3, 5, f8x2(anylen(16)), df8x2, f8x3(anylen(24)), df8x3, -, -=, any, w_sym);
+h_six!(c20_q_and_f8x2_f8x3, 5, f8x2(anylen(16)), df8x2, f8x3(anylen(24)), df8x3, &, &=, any, w_sym);
+h_six!(c20_q_or_f8x2_f8x3, 5, f8x2(anylen(16)), df8x2, f8x3(anylen(24)), df8x3, |, |=, any, w_sym);
+h_six!(c20_q_xor_f8x2_f8x3, 5, f8x2(anylen(16)), df8x2, f8x3(anylen(24)), df8x3, ^, ^=, any, w_sym);
+h_six!(c20_q_mul_f8x2l16_f8x3l24, 6, f8x2(16), df8x2, f8x3(24), df8x3, *, *=, any, w_val);
+h_six!(c20_q_mul_f8x2l6_f8x3l5, 6, f8x2(6), df8x2, f8x3(5), df8x3, *, *=, any, w_val);
+h_six!(c20_t_mul_f8x2l11_f8x3l9, 6, f8x2(11), df8x2, f8x3(9), df8x3, *, *=, any, w_val);
+h_pair!(c20_t_div_oo_f8x2l4_f8x3l3, 6, oo, f8x2(4), df8x2, f8x3(3), df8x3, /, /=, nz, w_val);
+h_pair!(c20_t_div_or_f8x2l4_f8x3l3, 6, or, f8x2(4), df8x2, f8x3(3), df8x3, /, /=, nz, w_val);
+h_pair!(c20_t_div_ro_f8x2l4_f8x3l3, 6, ro, f8x2(4), df8x2, f8x3(3), df8x3, /, /=, nz, w_val);
+h_pair!(c20_t_div_ao_f8x2l4_f8x3l3, 6, ao, f8x2(4), df8x2, f8x3(3), df8x3, /, /=, nz, w_val);
+h_pair!(c20_t_div_ar_f8x2l4_f8x3l3, 6, ar, f8x2(4), df8x2, f8x3(3), df8x3, /, /=, nz, w_val);
+h_pair!(c20_t_rem_oo_f8x2l4_f8x3l3, 6, oo, f8x2(4), df8x2, f8x3(3), df8x3, %, %=, nz, w_val);
+h_pair!(c20_t_rem_or_f8x2l4_f8x3l3, 6, or, f8x2(4), df8x2, f8x3(3), df8x3, %, %=, nz, w_val);
+h_pair!(c20_t_rem_ro_f8x2l4_f8x3l3, 6, ro, f8x2(4), df8x2, f8x3(3), df8x3, %, %=, nz, w_val);
+h_pair!(c20_t_rem_ao_f8x2l4_f8x3l3, 6, ao, f8x2(4), df8x2, f8x3(3), df8x3, %, %=, nz, w_val);
+h_pair!(c20_t_rem_ar_f8x2l4_f8x3l3, 6, ar, f8x2(4), df8x2, f8x3(3), df8x3, %, %=, nz, w_val);
+h_six!(c20_t_add_f16x2_f8x3, 6, f16x2(anylen(32)), df16x2, f8x3(anylen(24)), df8x3, +, +=, any, w_sym);
+h_six!(c20_t_add_f64x2_f64x2, 4, f64x2(anylen(128)), df64x2, f64x2(anylen(128)), df64x2, +, +=, any, w_sym);
+h_six!(c20_t_sub_f16x2_f8x3, 6, f16x2(anylen(32)), df16x2, f8x3(anylen(24)), df8x3, -, -=, any, w_sym);
+h_six!(c20_t_sub_f64x2_f64x2, 4, f64x2(anylen(128)), df64x2, f64x2(anylen(128)), df64x2, -, -=, any, w_sym);
+h_six!(c20_t_and_f16x2_f8x3, 6, f16x2(anylen(32)), df16x2, f8x3(anylen(24)), df8x3, &, &=, any, w_sym);
+h_six!(c20_t_and_f64x2_f64x2, 4, f64x2(anylen(128)), df64x2, f64x2(anylen(128)), df64x2, &, &=, any, w_sym);
+h_six!(c20_t_or_f16x2_f8x3, 6, f16x2(anylen(32)), df16x2, f8x3(anylen(24)), df8x3, |, |=, any, w_sym);
+h_six!(c20_t_or_f64x2_f64x2, 4, f64x2(anylen(128)), df64x2, f64x2(anylen(128)), df64x2, |, |=, any, w_sym);
+h_six!(c20_t_xor_f16x2_f8x3, 6, f16x2(anylen(32)), df16x2, f8x3(anylen(24)), df8x3, ^, ^=, any, w_sym);
+h_six!(c20_t_xor_f64x2_f64x2, 4, f64x2(anylen(128)), df64x2, f64x2(anylen(128)), df64x2, ^, ^=, any, w_sym);
+// ==== Bvf x native integer (+ "x directly" versus "vector built from x") ========================
+h_six_int!(c20_q_add_f8x2_u32, 10, f8x2(anylen(16)), df8x2, iu32(), du32, v_f32, +, +=, any, w_sym);
+h_six_int!(c20_q_sub_f8x2_u32, 10, f8x2(anylen(16)), df8x2, iu32(), du32, v_f32, -, -=, any, w_sym);
+h_six_int!(c20_q_and_f8x2_u32, 10, f8x2(anylen(16)), df8x2, iu32(), du32, v_f32, &, &=, any, w_sym);
+h_six_int!(c20_q_or_f8x2_u32, 10, f8x2(anylen(16)), df8x2, iu32(), du32, v_f32, |, |=, any, w_sym);
+h_six_int!(c20_q_xor_f8x2_u32, 10, f8x2(anylen(16)), df8x2, iu32(), du32, v_f32, ^, ^=, any, w_sym);
+h_six_int!(c20_q_mul_f8x2l16_u32, 10, f8x2(16), df8x2, iu32(), du32, v_f32, *, *=, any, w_val);
+h_six_int!(c20_t_mul_f8x2l6_u32, 10, f8x2(6), df8x2, iu32(), du32, v_f32, *, *=, any, w_val);
+h_pair!(c20_t_div_oo_f8x2l4_u8, 10, oo, f8x2(4), df8x2, iu8(), du8, /, /=, nz, w_val);
+h_pair!(c20_t_div_ar_f8x2l4_u8, 10, ar, f8x2(4), df8x2, iu8(), du8, /, /=, nz, w_val);
+h_pair!(c20_t_rem_oo_f8x2l4_u8, 10, oo, f8x2(4), df8x2, iu8(), du8, %, %=, nz, w_val);
+h_pair!(c20_t_rem_ar_f8x2l4_u8, 10, ar, f8x2(4), df8x2, iu8(), du8, %, %=, nz, w_val);
+h_six_int!(c20_t_add_f8x2_u8, 10, f8x2(anylen(16)), df8x2, iu8(), du8, v_f8, +, +=, any, w_sym);
+h_six_int!(c20_t_add_f64x2_u128, 6, f64x2(anylen(128)), df64x2, iu128(), du128, v_f128, +, +=, any, w_sym);
+h_six_int!(c20_t_sub_f8x2_u8, 10, f8x2(anylen(16)), df8x2, iu8(), du8, v_f8, -, -=, any, w_sym);
+h_six_int!(c20_t_sub_f64x2_u128, 6, f64x2(anylen(128)), df64x2, iu128(), du128, v_f128, -, -=, any, w_sym);
+h_six_int!(c20_t_and_f8x2_u8, 10, f8x2(anylen(16)), df8x2, iu8(), du8, v_f8, &, &=, any, w_sym);
+h_six_int!(c20_t_and_f64x2_u128, 6, f64x2(anylen(128)), df64x2, iu128(), du128, v_f128, &, &=, any, w_sym);
+h_six_int!(c20_t_or_f8x2_u8, 10, f8x2(anylen(16)), df8x2, iu8(), du8, v_f8, |, |=, any, w_sym);
+h_six_int!(c20_t_or_f64x2_u128, 6, f64x2(anylen(128)), df64x2, iu128(), du128, v_f128, |, |=, any, w_sym);
+h_six_int!(c20_t_xor_f8x2_u8, 10, f8x2(anylen(16)), df8x2, iu8(), du8, v_f8, ^, ^=, any, w_sym);
+h_six_int!(c20_t_xor_f64x2_u128, 6, f64x2(anylen(128)), df64x2, iu128(), du128, v_f128, ^, ^=, any, w_sym);
+h_six!(c20_q_shl_f8x2_u32, 8, f8x2(anylen(16)), df8x2, iu32(), du32, <<, <<=, any, w_sh);
+h_six!(c20_q_shl_f8x2_usize, 8, f8x2(anylen(16)), df8x2, iusize(), dusize, <<, <<=, any, w_sh);
+h_six!(c20_t_shl_f8x3_u8, 10, f8x3(anylen(24)), df8x3, iu8(), du8, <<, <<=, any, w_sh);
+h_six!(c20_t_shl_f64x2_u128, 8, f64x2(anylen(128)), df64x2, iu128(), du128, <<, <<=, any, w_sh);
+h_six!(c20_t_shl_f16x2_u16, 8, f16x2(anylen(32)), df16x2, iu16(), du16, <<, <<=, any, w_sh);
+h_six!(c20_q_shr_f8x2_u32, 8, f8x2(anylen(16)), df8x2, iu32(), du32, >>, >>=, any, w_sh);
+h_six!(c20_q_shr_f8x2_usize, 8, f8x2(anylen(16)), df8x2, iusize(), dusize, >>, >>=, any, w_sh);
+h_six!(c20_t_shr_f8x3_u8, 10, f8x3(anylen(24)), df8x3, iu8(), du8, >>, >>=, any, w_sh);
+h_six!(c20_t_shr_f64x2_u128, 8, f64x2(anylen(128)), df64x2, iu128(), du128, >>, >>=, any, w_sh);
+h_six!(c20_t_shr_f16x2_u16, 8, f16x2(anylen(32)), df16x2, iu16(), du16, >>, >>=, any, w_sh);
+// ==== Bvd x Bvd (two allocated words each: spare word whenever len <= 64) =======================
+h_six!(c20_q_add_bvd2_bvd2, 4, bvd2(anylen(128)), d2, bvd2(anylen(128)), d2, +, +=, any, w_sym);
+h_six!(c20_t_add_bvd2_bvd3, 5, bvd2(anylen(128)), d2, bvd3(anylen(192)), d3, +, +=, any, w_sym);
+h_six!(c20_q_sub_bvd2_bvd2, 4, bvd2(anylen(128)), d2, bvd2(anylen(128)), d2, -, -=, any, w_sym);
+h_six!(c20_t_sub_bvd2_bvd3, 5, bvd2(anylen(128)), d2, bvd3(anylen(192)), d3, -, -=, any, w_sym);
+h_six!(c20_q_and_bvd2_bvd2, 4, bvd2(anylen(128)), d2, bvd2(anylen(128)), d2, &, &=, any, w_sym);
+h_six!(c20_t_and_bvd2_bvd3, 5, bvd2(anylen(128)), d2, bvd3(anylen(192)), d3, &, &=, any, w_sym);
+h_six!(c20_q_or_bvd2_bvd2, 4, bvd2(anylen(128)), d2, bvd2(anylen(128)), d2, |, |=, any, w_sym);
+h_six!(c20_t_or_bvd2_bvd3, 5, bvd2(anylen(128)), d2, bvd3(anylen(192)), d3, |, |=, any, w_sym);
+h_six!(c20_q_xor_bvd2_bvd2, 4, bvd2(anylen(128)), d2, bvd2(anylen(128)), d2, ^, ^=, any, w_sym);
+h_six!(c20_t_xor_bvd2_bvd3, 5, bvd2(anylen(128)), d2, bvd3(anylen(192)), d3, ^, ^=, any, w_sym);
+h_six!(c20_q_mul_bvd2l6_bvd1l5, 6, bvd2(6), d2, bvd1(5), d1, *, *=, any, w_val);
+h_six!(c20_q_mul_bvd2l100_bvd2l70, 6, bvd2(100), d2, bvd2(70), d2, *, *=, any, w_val);
+h_six!(c20_t_mul_bvd1l5_bvd2l7, 6, bvd1(5), d1, bvd2(7), d2, *, *=, any, w_val);
+h_pair!(c20_t_div_oo_bvd2l4_bvd1l3, 6, oo, bvd2(4), d2, bvd1(3), d1, /, /=, nz, w_val);
+h_pair!(c20_t_div_or_bvd2l4_bvd1l3, 6, or, bvd2(4), d2, bvd1(3), d1, /, /=, nz, w_val);
+h_pair!(c20_t_div_ro_bvd2l4_bvd1l3, 6, ro, bvd2(4), d2, bvd1(3), d1, /, /=, nz, w_val);
+h_pair!(c20_t_div_ao_bvd2l4_bvd1l3, 6, ao, bvd2(4), d2, bvd1(3), d1, /, /=, nz, w_val);
+h_pair!(c20_t_div_ar_bvd2l4_bvd1l3, 6, ar, bvd2(4), d2, bvd1(3), d1, /, /=, nz, w_val);
+h_pair!(c20_t_rem_oo_bvd2l4_bvd1l3, 6, oo, bvd2(4), d2, bvd1(3), d1, %, %=, nz, w_val);
+h_pair!(c20_t_rem_or_bvd2l4_bvd1l3, 6, or, bvd2(4), d2, bvd1(3), d1, %, %=, nz, w_val);
+h_pair!(c20_t_rem_ro_bvd2l4_bvd1l3, 6, ro, bvd2(4), d2, bvd1(3), d1, %, %=, nz, w_val);
+h_pair!(c20_t_rem_ao_bvd2l4_bvd1l3, 6, ao, bvd2(4), d2, bvd1(3), d1, %, %=, nz, w_val);
+h_pair!(c20_t_rem_ar_bvd2l4_bvd1l3, 6, ar, bvd2(4), d2, bvd1(3), d1, %, %=, nz, w_val);
+// ==== Bvd x Bvf ==========================================================================
+h_six!(c20_q_add_bvd2_f64x2, 4, bvd2(anylen(128)), d2, f64x2(anylen(128)), df64x2, +, +=, any, w_sym);
+h_six!(c20_t_add_bvd2_f8x2, 10, bvd2(anylen(128)), d2, f8x2(anylen(16)), df8x2, +, +=, any, w_sym);
+h_six!(c20_t_sub_bvd2_f64x2, 4, bvd2(anylen(128)), d2, f64x2(anylen(128)), df64x2, -, -=, any, w_sym);
+h_six!(c20_t_sub_bvd2_f8x2, 10, bvd2(anylen(128)), d2, f8x2(anylen(16)), df8x2, -, -=, any, w_sym);
+h_six!(c20_t_and_bvd2_f64x2, 4, bvd2(anylen(128)), d2, f64x2(anylen(128)), df64x2, &, &=, any, w_sym);
+h_six!(c20_t_and_bvd2_f8x2, 10, bvd2(anylen(128)), d2, f8x2(anylen(16)), df8x2, &, &=, any, w_sym);
+h_six!(c20_t_or_bvd2_f64x2, 4, bvd2(anylen(128)), d2, f64x2(anylen(128)), df64x2, |, |=, any, w_sym);
+h_six!(c20_t_or_bvd2_f8x2, 10, bvd2(anylen(128)), d2, f8x2(anylen(16)), df8x2, |, |=, any, w_sym);
+h_six!(c20_t_xor_bvd2_f64x2, 4, bvd2(anylen(128)), d2, f64x2(anylen(128)), df64x2, ^, ^=, any, w_sym);
+h_six!(c20_t_xor_bvd2_f8x2, 10, bvd2(anylen(128)), d2, f8x2(anylen(16)), df8x2, ^, ^=, any, w_sym);
+h_pair!(c20_q_add_ar_bvd2_f8x2, 10, ar, bvd2(anylen(128)), d2, f8x2(anylen(16)), df8x2, +, +=, any, w_sym);
+h_pair!(c20_q_xor_oo_bvd2_f8x2, 10, oo, bvd2(anylen(128)), d2, f8x2(anylen(16)), df8x2, ^, ^=, any, w_sym);
+h_six!(c20_t_mul_bvd2l6_f8x2l5, 10, bvd2(6), d2, f8x2(5), df8x2, *, *=, any, w_val);
+h_pair!(c20_t_div_oo_bvd2l4_f8x2l3, 10, oo, bvd2(4), d2, f8x2(3), df8x2, /, /=, nz, w_val);
+h_pair!(c20_t_div_ar_bvd2l4_f8x2l3, 10, ar, bvd2(4), d2, f8x2(3), df8x2, /, /=, nz, w_val);
+h_pair!(c20_t_rem_oo_bvd2l4_f8x2l3, 10, oo, bvd2(4), d2, f8x2(3), df8x2, %, %=, nz, w_val);
+h_pair!(c20_t_rem_ar_bvd2l4_f8x2l3, 10, ar, bvd2(4), d2, f8x2(3), df8x2, %, %=, nz, w_val);
+// ==== Bvd x native integer ====================================================================
+h_six_int!(c20_q_add_bvd2_u64, 4, bvd2(anylen(128)), d2, iu64(), du64, v_d64, +, +=, any, w_sym);
+h_six_int!(c20_t_sub_bvd2_u64, 4, bvd2(anylen(128)), d2, iu64(), du64, v_d64, -, -=, any, w_sym);
+h_six_int!(c20_t_and_bvd2_u64, 4, bvd2(anylen(128)), d2, iu64(), du64, v_d64, &, &=, any, w_sym);
+h_six_int!(c20_t_or_bvd2_u64, 4, bvd2(anylen(128)), d2, iu64(), du64, v_d64, |, |=, any, w_sym);
+h_six_int!(c20_t_xor_bvd2_u64, 4, bvd2(anylen(128)), d2, iu64(), du64, v_d64, ^, ^=, any, w_sym);
+h_six_int!(c20_t_mul_bvd2l6_u32, 6, bvd2(6), d2, iu32(), du32, v_d32, *, *=, any, w_val);
+h_pair!(c20_t_div_oo_bvd2l4_u32, 6, oo, bvd2(4), d2, iu32(), du32, /, /=, nz, w_val);
+h_pair!(c20_t_div_ar_bvd2l4_u32, 6, ar, bvd2(4), d2, iu32(), du32, /, /=, nz, w_val);
+h_pair!(c20_t_rem_oo_bvd2l4_u32, 6, oo, bvd2(4), d2, iu32(), du32, %, %=, nz, w_val);
+h_pair!(c20_t_rem_ar_bvd2l4_u32, 6, ar, bvd2(4), d2, iu32(), du32, %, %=, nz, w_val);
+// ==== Bvd shifts: `&Bvd << k` / `&Bvd >> k` are separate implementations that allocate by length
+// quick: the separately implemented by-reference form against the in-place form at a length lattice;
+// thorough: all six forms at every lattice length, and a symbolic length.
+h_pair!(c20_q_shl_ao_bvd2l1_usize, 6, ao, bvd2(1), d2, iusize(), dusize, <<, <<=, any, w_shc);
+h_pair!(c20_q_shl_ao_bvd2l64_usize, 6, ao, bvd2(64), d2, iusize(), dusize, <<, <<=, any, w_shc);
+h_pair!(c20_q_shl_ao_bvd2l65_usize, 6, ao, bvd2(65), d2, iusize(), dusize, <<, <<=, any, w_shc);
+h_pair!(c20_q_shl_ao_bvd2l128_usize, 6, ao, bvd2(128), d2, iusize(), dusize, <<, <<=, any, w_shc);
+h_six!(c20_t_shl_bvd2l0_usize, 6, bvd2(0), d2, iusize(), dusize, <<, <<=, any, w_shc);
+h_six!(c20_t_shl_bvd2l1_usize, 6, bvd2(1), d2, iusize(), dusize, <<, <<=, any, w_shc);
+h_six!(c20_t_shl_bvd2l63_usize, 6, bvd2(63), d2, iusize(), dusize, <<, <<=, any, w_shc);
+h_six!(c20_t_shl_bvd2l64_usize, 6, bvd2(64), d2, iusize(), dusize, <<, <<=, any, w_shc);
+h_six!(c20_t_shl_bvd2l65_usize, 6, bvd2(65), d2, iusize(), dusize, <<, <<=, any, w_shc);
+h_six!(c20_t_shl_bvd2l127_usize, 6, bvd2(127), d2, iusize(), dusize, <<, <<=, any, w_shc);
+h_six!(c20_t_shl_bvd2l128_usize, 6, bvd2(128), d2, iusize(), dusize, <<, <<=, any, w_shc);
+h_six!(c20_t_shl_bvd3l5_u32, 8, bvd3(5), d3, iu32(), du32, <<, <<=, any, w_shc);
+h_six!(c20_t_shl_bvd3l70_u32, 8, bvd3(70), d3, iu32(), du32, <<, <<=, any, w_shc);
+h_six!(c20_t_shl_bvd3l129_u32, 8, bvd3(129), d3, iu32(), du32, <<, <<=, any, w_shc);
+h_six!(c20_t_shl_bvd3l192_u32, 8, bvd3(192), d3, iu32(), du32, <<, <<=, any, w_shc);
+h_pair!(c20_t_shl_ao_bvd2_u64, 6, ao, bvd2(anylen(128)), d2, iu64(), du64, <<, <<=, any, w_sh);
+h_pair!(c20_q_shr_ao_bvd2l1_usize, 6, ao, bvd2(1), d2, iusize(), dusize, >>, >>=, any, w_shc);
+h_pair!(c20_q_shr_ao_bvd2l64_usize, 6, ao, bvd2(64), d2, iusize(), dusize, >>, >>=, any, w_shc);
+h_pair!(c20_q_shr_ao_bvd2l65_usize, 6, ao, bvd2(65), d2, iusize(), dusize, >>, >>=, any, w_shc);
+h_pair!(c20_q_shr_ao_bvd2l128_usize, 6, ao, bvd2(128), d2, iusize(), dusize, >>, >>=, any, w_shc);
+h_six!(c20_t_shr_bvd2l0_usize, 6, bvd2(0), d2, iusize(), dusize, >>, >>=, any, w_shc);
+h_six!(c20_t_shr_bvd2l1_usize, 6, bvd2(1), d2, iusize(), dusize, >>, >>=, any, w_shc);
+h_six!(c20_t_shr_bvd2l63_usize, 6, bvd2(63), d2, iusize(), dusize, >>, >>=, any, w_shc);
+h_six!(c20_t_shr_bvd2l64_usize, 6, bvd2(64), d2, iusize(), dusize, >>, >>=, any, w_shc);
+h_six!(c20_t_shr_bvd2l65_usize, 6, bvd2(65), d2, iusize(), dusize, >>, >>=, any, w_shc);
+h_six!(c20_t_shr_bvd2l127_usize, 6, bvd2(127), d2, iusize(), dusize, >>, >>=, any, w_shc);
+h_six!(c20_t_shr_bvd2l128_usize, 6, bvd2(128), d2, iusize(), dusize, >>, >>=, any, w_shc);
+h_six!(c20_t_shr_bvd3l5_u32, 8, bvd3(5), d3, iu32(), du32, >>, >>=, any, w_shc);
+h_six!(c20_t_shr_bvd3l70_u32, 8, bvd3(70), d3, iu32(), du32, >>, >>=, any, w_shc);
+h_six!(c20_t_shr_bvd3l129_u32, 8, bvd3(129), d3, iu32(), du32, >>, >>=, any, w_shc);
+h_six!(c20_t_shr_bvd3l192_u32, 8, bvd3(192), d3, iu32(), du32, >>, >>=, any, w_shc);
+h_pair!(c20_t_shr_ao_bvd2_u64, 6, ao, bvd2(anylen(128)), d2, iu64(), du64, >>, >>=, any, w_sh);
+// ==== Bv x Bv, every pair of storage modes ========================================================
+h_six!(c20_q_add_afix_afix, 4, bvfix(anylen(128)), afix, bvfix(anylen(128)), afix, +, +=, any, w_sym);
+h_six!(c20_t_sub_afix_afix, 4, bvfix(anylen(128)), afix, bvfix(anylen(128)), afix, -, -=, any, w_sym);
+h_six!(c20_q_and_afix_afix, 4, bvfix(anylen(128)), afix, bvfix(anylen(128)), afix, &, &=, any, w_sym);
+h_six!(c20_t_or_afix_afix, 4, bvfix(anylen(128)), afix, bvfix(anylen(128)), afix, |, |=, any, w_sym);
+h_six!(c20_t_xor_afix_afix, 4, bvfix(anylen(128)), afix, bvfix(anylen(128)), afix, ^, ^=, any, w_sym);
+h_six!(c20_t_add_afix_adyn, 4, bvfix(anylen(128)), afix, bvdyn2(anylen(128)), adyn2, +, +=, any, w_sym);
+h_six!(c20_q_sub_afix_adyn, 4, bvfix(anylen(128)), afix, bvdyn2(anylen(128)), adyn2, -, -=, any, w_sym);
+h_six!(c20_t_and_afix_adyn, 4, bvfix(anylen(128)), afix, bvdyn2(anylen(128)), adyn2, &, &=, any, w_sym);
+h_six!(c20_q_or_afix_adyn, 4, bvfix(anylen(128)), afix, bvdyn2(anylen(128)), adyn2, |, |=, any, w_sym);
+h_six!(c20_t_xor_afix_adyn, 4, bvfix(anylen(128)), afix, bvdyn2(anylen(128)), adyn2, ^, ^=, any, w_sym);
+h_six!(c20_q_add_adyn_afix, 4, bvdyn2(anylen(128)), adyn2, bvfix(anylen(128)), afix, +, +=, any, w_sym);
+h_six!(c20_t_sub_adyn_afix, 4, bvdyn2(anylen(128)), adyn2, bvfix(anylen(128)), afix, -, -=, any, w_sym);
+h_six!(c20_t_and_adyn_afix, 4, bvdyn2(anylen(128)), adyn2, bvfix(anylen(128)), afix, &, &=, any, w_sym);
+h_six!(c20_t_or_adyn_afix, 4, bvdyn2(anylen(128)), adyn2, bvfix(anylen(128)), afix, |, |=, any, w_sym);
+h_six!(c20_q_xor_adyn_afix, 4, bvdyn2(anylen(128)), adyn2, bvfix(anylen(128)), afix, ^, ^=, any, w_sym);
+h_six!(c20_q_add_adyn_adyn, 4, bvdyn2(anylen(128)), adyn2, bvdyn2(anylen(128)), adyn2, +, +=, any, w_sym);
+h_six!(c20_q_sub_adyn_adyn, 4, bvdyn2(anylen(128)), adyn2, bvdyn2(anylen(128)), adyn2, -, -=, any, w_sym);
+h_six!(c20_t_and_adyn_adyn, 4, bvdyn2(anylen(128)), adyn2, bvdyn2(anylen(128)), adyn2, &, &=, any, w_sym);
+h_six!(c20_t_or_adyn_adyn, 4, bvdyn2(anylen(128)), adyn2, bvdyn2(anylen(128)), adyn2, |, |=, any, w_sym);
+h_six!(c20_t_xor_adyn_adyn, 4, bvdyn2(anylen(128)), adyn2, bvdyn2(anylen(128)), adyn2, ^, ^=, any, w_sym);
+h_six!(c20_t_mul_afixl6_afixl5, 6, bvfix(6), afix, bvfix(5), afix, *, *=, any, w_val);
+h_pair!(c20_t_div_oo_afixl4_afixl3, 6, oo, bvfix(4), afix, bvfix(3), afix, /, /=, nz, w_val);
+h_pair!(c20_t_div_or_afixl4_afixl3, 6, or, bvfix(4), afix, bvfix(3), afix, /, /=, nz, w_val);
+h_pair!(c20_t_div_ro_afixl4_afixl3, 6, ro, bvfix(4), afix, bvfix(3), afix, /, /=, nz, w_val);
+h_pair!(c20_t_div_ao_afixl4_afixl3, 6, ao, bvfix(4), afix, bvfix(3), afix, /, /=, nz, w_val);
+h_pair!(c20_t_div_ar_afixl4_afixl3, 6, ar, bvfix(4), afix, bvfix(3), afix, /, /=, nz, w_val);
+h_pair!(c20_t_rem_oo_afixl4_afixl3, 6, oo, bvfix(4), afix, bvfix(3), afix, %, %=, nz, w_val);
+h_pair!(c20_t_rem_or_afixl4_afixl3, 6, or, bvfix(4), afix, bvfix(3), afix, %, %=, nz, w_val);
+h_pair!(c20_t_rem_ro_afixl4_afixl3, 6, ro, bvfix(4), afix, bvfix(3), afix, %, %=, nz, w_val);
+h_pair!(c20_t_rem_ao_afixl4_afixl3, 6, ao, bvfix(4), afix, bvfix(3), afix, %, %=, nz, w_val);
+h_pair!(c20_t_rem_ar_afixl4_afixl3, 6, ar, bvfix(4), afix, bvfix(3), afix, %, %=, nz, w_val);
+h_six!(c20_q_mul_afixl6_adynl5, 6, bvfix(6), afix, bvdyn1(5), adyn1, *, *=, any, w_val);
+h_pair!(c20_t_div_oo_afixl4_adynl3, 6, oo, bvfix(4), afix, bvdyn1(3), adyn1, /, /=, nz, w_val);
+h_pair!(c20_t_div_ar_afixl4_adynl3, 6, ar, bvfix(4), afix, bvdyn1(3), adyn1, /, /=, nz, w_val);
+h_pair!(c20_t_rem_oo_afixl4_adynl3, 6, oo, bvfix(4), afix, bvdyn1(3), adyn1, %, %=, nz, w_val);
+h_pair!(c20_t_rem_ar_afixl4_adynl3, 6, ar, bvfix(4), afix, bvdyn1(3), adyn1, %, %=, nz, w_val);
+h_six!(c20_q_mul_adynl6_afixl5, 6, bvdyn1(6), adyn1, bvfix(5), afix, *, *=, any, w_val);
+h_pair!(c20_t_div_oo_adynl4_afixl3, 6, oo, bvdyn1(4), adyn1, bvfix(3), afix, /, /=, nz, w_val);
+h_pair!(c20_t_div_ar_adynl4_afixl3, 6, ar, bvdyn1(4), adyn1, bvfix(3), afix, /, /=, nz, w_val);
+h_pair!(c20_t_rem_oo_adynl4_afixl3, 6, oo, bvdyn1(4), adyn1, bvfix(3), afix, %, %=, nz, w_val);
+h_pair!(c20_t_rem_ar_adynl4_afixl3, 6, ar, bvdyn1(4), adyn1, bvfix(3), afix, %, %=, nz, w_val);
+h_six!(c20_t_mul_adynl6_adynl5, 6, bvdyn1(6), adyn1, bvdyn1(5), adyn1, *, *=, any, w_val);
+h_pair!(c20_t_div_oo_adynl4_adynl3, 6, oo, bvdyn1(4), adyn1, bvdyn1(3), adyn1, /, /=, nz, w_val);
+h_pair!(c20_t_div_or_adynl4_adynl3, 6, or, bvdyn1(4), adyn1, bvdyn1(3), adyn1, /, /=, nz, w_val);
+h_pair!(c20_t_div_ro_adynl4_adynl3, 6, ro, bvdyn1(4), adyn1, bvdyn1(3), adyn1, /, /=, nz, w_val);
+h_pair!(c20_t_div_ao_adynl4_adynl3, 6, ao, bvdyn1(4), adyn1, bvdyn1(3), adyn1, /, /=, nz, w_val);
+h_pair!(c20_t_div_ar_adynl4_adynl3, 6, ar, bvdyn1(4), adyn1, bvdyn1(3), adyn1, /, /=, nz, w_val);
+h_pair!(c20_t_rem_oo_adynl4_adynl3, 6, oo, bvdyn1(4), adyn1, bvdyn1(3), adyn1, %, %=, nz, w_val);
+h_pair!(c20_t_rem_or_adynl4_adynl3, 6, or, bvdyn1(4), adyn1, bvdyn1(3), adyn1, %, %=, nz, w_val);
+h_pair!(c20_t_rem_ro_adynl4_adynl3, 6, ro, bvdyn1(4), adyn1, bvdyn1(3), adyn1, %, %=, nz, w_val);
+h_pair!(c20_t_rem_ao_adynl4_adynl3, 6, ao, bvdyn1(4), adyn1, bvdyn1(3), adyn1, %, %=, nz, w_val);
+h_pair!(c20_t_rem_ar_adynl4_adynl3, 6, ar, bvdyn1(4), adyn1, bvdyn1(3), adyn1, %, %=, nz, w_val);
+// ==== Bv x Bvf / Bvd (the remaining dispatch arms) ==================================================
+h_six!(c20_q_add_afix_f64x2, 4, bvfix(anylen(128)), afix, f64x2(anylen(128)), df64x2, +, +=, any, w_sym);
+h_six!(c20_t_add_afix_bvd2, 4, bvfix(anylen(128)), afix, bvd2(anylen(128)), d2, +, +=, any, w_sym);
+h_six!(c20_t_sub_afix_f64x2, 4, bvfix(anylen(128)), afix, f64x2(anylen(128)), df64x2, -, -=, any, w_sym);
+h_six!(c20_t_sub_afix_bvd2, 4, bvfix(anylen(128)), afix, bvd2(anylen(128)), d2, -, -=, any, w_sym);
+h_six!(c20_t_and_afix_f64x2, 4, bvfix(anylen(128)), afix, f64x2(anylen(128)), df64x2, &, &=, any, w_sym);
+h_six!(c20_t_and_afix_bvd2, 4, bvfix(anylen(128)), afix, bvd2(anylen(128)), d2, &, &=, any, w_sym);
+h_six!(c20_t_or_afix_f64x2, 4, bvfix(anylen(128)), afix, f64x2(anylen(128)), df64x2, |, |=, any, w_sym);
+h_six!(c20_t_or_afix_bvd2, 4, bvfix(anylen(128)), afix, bvd2(anylen(128)), d2, |, |=, any, w_sym);
+h_six!(c20_t_xor_afix_f64x2, 4, bvfix(anylen(128)), afix, f64x2(anylen(128)), df64x2, ^, ^=, any, w_sym);
+h_six!(c20_q_xor_afix_bvd2, 4, bvfix(anylen(128)), afix, bvd2(anylen(128)), d2, ^, ^=, any, w_sym);
+h_six!(c20_t_mul_afixl6_f8x2l5, 10, bvfix(6), afix, f8x2(5), df8x2, *, *=, any, w_val);
+h_six!(c20_t_mul_afixl6_bvd1l5, 6, bvfix(6), afix, bvd1(5), d1, *, *=, any, w_val);
+h_pair!(c20_t_div_or_afixl4_f8x2l3, 10, or, bvfix(4), afix, f8x2(3), df8x2, /, /=, nz, w_val);
+h_pair!(c20_t_div_ao_afixl4_bvd1l3, 6, ao, bvfix(4), afix, bvd1(3), d1, /, /=, nz, w_val);
+h_pair!(c20_t_rem_or_afixl4_f8x2l3, 10, or, bvfix(4), afix, f8x2(3), df8x2, %, %=, nz, w_val);
+h_pair!(c20_t_rem_ao_afixl4_bvd1l3, 6, ao, bvfix(4), afix, bvd1(3), d1, %, %=, nz, w_val);
+h_six!(c20_t_add_adyn_f64x2, 4, bvdyn2(anylen(128)), adyn2, f64x2(anylen(128)), df64x2, +, +=, any, w_sym);
+h_six!(c20_t_add_adyn_bvd2, 4, bvdyn2(anylen(128)), adyn2, bvd2(anylen(128)), d2, +, +=, any, w_sym);
+h_six!(c20_t_sub_adyn_f64x2, 4, bvdyn2(anylen(128)), adyn2, f64x2(anylen(128)), df64x2, -, -=, any, w_sym);
+h_six!(c20_t_sub_adyn_bvd2, 4, bvdyn2(anylen(128)), adyn2, bvd2(anylen(128)), d2, -, -=, any, w_sym);
+h_six!(c20_t_and_adyn_f64x2, 4, bvdyn2(anylen(128)), adyn2, f64x2(anylen(128)), df64x2, &, &=, any, w_sym);
+h_six!(c20_t_and_adyn_bvd2, 4, bvdyn2(anylen(128)), adyn2, bvd2(anylen(128)), d2, &, &=, any, w_sym);
+h_six!(c20_t_or_adyn_f64x2, 4, bvdyn2(anylen(128)), adyn2, f64x2(anylen(128)), df64x2, |, |=, any, w_sym);
+h_six!(c20_t_or_adyn_bvd2, 4, bvdyn2(anylen(128)), adyn2, bvd2(anylen(128)), d2, |, |=, any, w_sym);
+h_six!(c20_t_xor_adyn_f64x2, 4, bvdyn2(anylen(128)), adyn2, f64x2(anylen(128)), df64x2, ^, ^=, any, w_sym);
+h_six!(c20_q_xor_adyn_bvd2, 4, bvdyn2(anylen(128)), adyn2, bvd2(anylen(128)), d2, ^, ^=, any, w_sym);
+h_six!(c20_t_mul_adynl6_f8x2l5, 10, bvdyn1(6), adyn1, f8x2(5), df8x2, *, *=, any, w_val);
+h_six!(c20_t_mul_adynl6_bvd1l5, 6, bvdyn1(6), adyn1, bvd1(5), d1, *, *=, any, w_val);
+h_pair!(c20_t_div_or_adynl4_f8x2l3, 10, or, bvdyn1(4), adyn1, f8x2(3), df8x2, /, /=, nz, w_val);
+h_pair!(c20_t_div_ao_adynl4_bvd1l3, 6, ao, bvdyn1(4), adyn1, bvd1(3), d1, /, /=, nz, w_val);
+h_pair!(c20_t_rem_or_adynl4_f8x2l3, 10, or, bvdyn1(4), adyn1, f8x2(3), df8x2, %, %=, nz, w_val);
+h_pair!(c20_t_rem_ao_adynl4_bvd1l3, 6, ao, bvdyn1(4), adyn1, bvd1(3), d1, %, %=, nz, w_val);
+// ==== Bv x native integer ======================================================================
+h_six_int!(c20_q_add_afix_u16, 6, bvfix(anylen(128)), afix, iu16(), du16, v_a16, +, +=, any, w_sym);
+h_six_int!(c20_t_sub_afix_u16, 6, bvfix(anylen(128)), afix, iu16(), du16, v_a16, -, -=, any, w_sym);
+h_six_int!(c20_t_and_afix_u16, 6, bvfix(anylen(128)), afix, iu16(), du16, v_a16, &, &=, any, w_sym);
+h_six_int!(c20_q_or_afix_u16, 6, bvfix(anylen(128)), afix, iu16(), du16, v_a16, |, |=, any, w_sym);
+h_six_int!(c20_t_xor_afix_u16, 6, bvfix(anylen(128)), afix, iu16(), du16, v_a16, ^, ^=, any, w_sym);
+h_six_int!(c20_t_mul_afixl6_u16, 6, bvfix(6), afix, iu16(), du16, v_a16, *, *=, any, w_val);
+h_pair!(c20_t_div_oo_afixl4_u16, 6, oo, bvfix(4), afix, iu16(), du16, /, /=, nz, w_val);
+h_pair!(c20_t_div_ar_afixl4_u16, 6, ar, bvfix(4), afix, iu16(), du16, /, /=, nz, w_val);
+h_pair!(c20_t_rem_oo_afixl4_u16, 6, oo, bvfix(4), afix, iu16(), du16, %, %=, nz, w_val);
+h_pair!(c20_t_rem_ar_afixl4_u16, 6, ar, bvfix(4), afix, iu16(), du16, %, %=, nz, w_val);
+h_six_int!(c20_q_add_adyn_u16, 6, bvdyn2(anylen(128)), adyn2, iu16(), du16, v_a16, +, +=, any, w_sym);
+h_six_int!(c20_t_sub_adyn_u16, 6, bvdyn2(anylen(128)), adyn2, iu16(), du16, v_a16, -, -=, any, w_sym);
+h_six_int!(c20_t_and_adyn_u16, 6, bvdyn2(anylen(128)), adyn2, iu16(), du16, v_a16, &, &=, any, w_sym);
+h_six_int!(c20_q_or_adyn_u16, 6, bvdyn2(anylen(128)), adyn2, iu16(), du16, v_a16, |, |=, any, w_sym);
+h_six_int!(c20_t_xor_adyn_u16, 6, bvdyn2(anylen(128)), adyn2, iu16(), du16, v_a16, ^, ^=, any, w_sym);
+h_six_int!(c20_t_mul_adynl6_u16, 6, bvdyn1(6), adyn1, iu16(), du16, v_a16, *, *=, any, w_val);
+h_pair!(c20_t_div_oo_adynl4_u16, 6, oo, bvdyn1(4), adyn1, iu16(), du16, /, /=, nz, w_val);
+h_pair!(c20_t_div_ar_adynl4_u16, 6, ar, bvdyn1(4), adyn1, iu16(), du16, /, /=, nz, w_val);
+h_pair!(c20_t_rem_oo_adynl4_u16, 6, oo, bvdyn1(4), adyn1, iu16(), du16, %, %=, nz, w_val);
+h_pair!(c20_t_rem_ar_adynl4_u16, 6, ar, bvdyn1(4), adyn1, iu16(), du16, %, %=, nz, w_val);
+h_pair!(c20_q_shl_ao_afix_u16, 6, ao, bvfix(anylen(128)), afix, iu16(), du16, <<, <<=, any, w_sh);
+h_pair!(c20_q_shl_ro_adyn2l100_u16, 6, ro, bvdyn2(100), adyn2, iu16(), du16, <<, <<=, any, w_shc);
+h_six!(c20_t_shl_afix_u16, 6, bvfix(anylen(128)), afix, iu16(), du16, <<, <<=, any, w_sh);
+h_six!(c20_t_shl_afix_u64, 6, bvfix(anylen(128)), afix, iu64(), du64, <<, <<=, any, w_sh);
+h_six!(c20_t_shl_adyn2l5_u16, 6, bvdyn2(5), adyn2, iu16(), du16, <<, <<=, any, w_shc);
+h_six!(c20_t_shl_adyn2l64_u16, 6, bvdyn2(64), adyn2, iu16(), du16, <<, <<=, any, w_shc);
+h_six!(c20_t_shl_adyn2l100_u16, 6, bvdyn2(100), adyn2, iu16(), du16, <<, <<=, any, w_shc);
+h_six!(c20_t_shl_adyn2l128_u16, 6, bvdyn2(128), adyn2, iu16(), du16, <<, <<=, any, w_shc);
+h_pair!(c20_q_shr_ao_afix_u16, 6, ao, bvfix(anylen(128)), afix, iu16(), du16, >>, >>=, any, w_sh);
+h_pair!(c20_q_shr_ro_adyn2l100_u16, 6, ro, bvdyn2(100), adyn2, iu16(), du16, >>, >>=, any, w_shc);
+h_six!(c20_t_shr_afix_u16, 6, bvfix(anylen(128)), afix, iu16(), du16, >>, >>=, any, w_sh);
+h_six!(c20_t_shr_afix_u64, 6, bvfix(anylen(128)), afix, iu64(), du64, >>, >>=, any, w_sh);
+h_six!(c20_t_shr_adyn2l5_u16, 6, bvdyn2(5), adyn2, iu16(), du16, >>, >>=, any, w_shc);
+h_six!(c20_t_shr_adyn2l64_u16, 6, bvdyn2(64), adyn2, iu16(), du16, >>, >>=, any, w_shc);
+h_six!(c20_t_shr_adyn2l100_u16, 6, bvdyn2(100), adyn2, iu16(), du16, >>, >>=, any, w_shc);
+h_six!(c20_t_shr_adyn2l128_u16, 6, bvdyn2(128), adyn2, iu16(), du16, >>, >>=, any, w_shc);
+// ==== !a versus !&a ========================================================================
+h_not!(c20_q_not_f8x2, 4, f8x2(anylen(16)), df8x2);
+h_not!(c20_q_not_f64x2, 4, f64x2(anylen(128)), df64x2);
+h_not!(c20_q_not_afix, 4, bvfix(anylen(128)), afix);
+h_not!(c20_q_not_bvd2l0, 4, bvd2(0), d2);
+h_not!(c20_q_not_bvd2l1, 4, bvd2(1), d2);
+h_not!(c20_q_not_bvd2l64, 4, bvd2(64), d2);
+h_not!(c20_q_not_bvd2l65, 4, bvd2(65), d2);
+h_not!(c20_q_not_bvd2l128, 4, bvd2(128), d2);
+h_not!(c20_t_not_bvd3l5, 5, bvd3(5), d3);
+h_not!(c20_t_not_bvd3l70, 5, bvd3(70), d3);
+h_not!(c20_t_not_bvd3l129, 5, bvd3(129), d3);
+h_not!(c20_t_not_bvd3l192, 5, bvd3(192), d3);
+h_not!(c20_q_not_adyn2l70, 4, bvdyn2(70), adyn2);
+h_not!(c20_t_not_bvd2, 4, bvd2(anylen(128)), d2);
+// ==== zero divisor: every form panics =============================================================
+h_zero!(c20_q_zero_f8x2_f8x3, 6, f8x2(anylen(16)), df8x2, anylen(24), 24, df8x3);
+h_zero!(c20_q_zero_afix_afix, 6, bvfix(anylen(128)), afix, anylen(128), 128, afix);
+h_zero!(c20_t_zero_bvd2l9_bvd1l7, 6, bvd2(9), d2, 7, 64, d1);
+h_zero!(c20_t_zero_adyn1l9_afix, 6, bvdyn1(9), adyn1, anylen(128), 128, afix);
